@@ -5675,9 +5675,7 @@ def merge_parts(parts, reassign="voice"):
     time_multiplier_per_part = [int(lcm / d) for d in parts_quarter_durations]
 
     # create a new part and fill it with all objects in other parts
-    new_part = Part(parts[0].id)
-    new_part._quarter_times = [0]
-    new_part._quarter_durations = [lcm]
+    new_part = Part(parts[0].id, quarter_duration=int(lcm))
 
     # find the unique number of voices for each part (voice numbers start from 1)
     unique_voices = [
